@@ -78,3 +78,21 @@ Theorem C08_cancelling_shifts_leave_the_weighted_sum : forall (K : Fld), FldOk K
   = vadd M (smul M wi (b_residual K M H Gb G Hv bi)) (smul M wj (b_residual K M H Gb G Hv bj)).
 Proof. exact cancelling_shifts_leave_the_weighted_sum. Qed.
 Print Assumptions C08_cancelling_shifts_leave_the_weighted_sum.
+
+(** any number of members and ANY factors (those of the altered batch included): shifts [c_i * t] of d1[k] move the weighted sum of residuals by
+    [(sum_i w_i c_i) * t] along Gb_k — so factors that keep an integer relation [sum_i w_i c_i = 0] whatever the responses are (a progression
+    [a + i b]: [w_0 - 2 w_1 + w_2 = 0]) let individually invalid proofs pass together although every factor changed with the responses.  The check
+    looks for such relations on the observed factors by exact lattice reduction and mounts exactly this attack. *)
+Theorem C08_shifts_along_a_relation : forall (K : Fld), FldOk K -> forall (M : Mod K), ModOk K M ->
+  forall (H : M) (Gb G Hv : list M) k t (l : list (K * K * bmember K M)),
+  Forall (fun x => (k < length (v_d1 (b_pf K M (snd x))))%nat /\ length (v_d1 (b_pf K M (snd x))) = length Gb) l ->
+  wres_shifted K M H Gb G Hv k t l = vadd M (wres K M H Gb G Hv l) (smul M (fmul K (relation K M l) t) (nth k Gb (v0 M))).
+Proof. exact shifts_along_a_relation. Qed.
+Print Assumptions C08_shifts_along_a_relation.
+
+Theorem C08_shifts_along_a_vanishing_relation : forall (K : Fld), FldOk K -> forall (M : Mod K), ModOk K M ->
+  forall (H : M) (Gb G Hv : list M) k t (l : list (K * K * bmember K M)),
+  Forall (fun x => (k < length (v_d1 (b_pf K M (snd x))))%nat /\ length (v_d1 (b_pf K M (snd x))) = length Gb) l ->
+  relation K M l = f0 K -> wres_shifted K M H Gb G Hv k t l = wres K M H Gb G Hv l.
+Proof. exact shifts_along_a_vanishing_relation. Qed.
+Print Assumptions C08_shifts_along_a_vanishing_relation.
